@@ -100,7 +100,7 @@ sys.exit(0)
 
 
 def INCLUDE(name):
-    return name.startswith("C07.") or name.startswith("C06.matcher.valid_to_replace")
+    return name.startswith("C07.") or name.startswith("C06.matcher.valid_to_replace") or name.startswith("_valid_to_replace.loop")
 
 
 def replay(ob):
